@@ -220,9 +220,15 @@ type Resolver interface {
 
 // Compile combines a set of rules into a lexer.
 func Compile(rules []*Rule, scanBytes, allowBacktracking bool) (*Tables, error) {
+	return CompileWithConditions(rules, 0, scanBytes, allowBacktracking)
+}
+
+// CompileWithConditions is Compile for a lexer with numSC declared start conditions,
+// the last of which may have no rules.
+func CompileWithConditions(rules []*Rule, numSC int, scanBytes, allowBacktracking bool) (*Tables, error) {
 	var s status.Status
 	var index []int
-	var maxSC int
+	maxSC := max(numSC-1, 0)
 	c := newCompiler()
 	for _, r := range rules {
 		i, err := c.addPattern(r.Pattern, r)
